@@ -200,3 +200,266 @@ package ipmi
 //@ ensures [C06.v1-noauth] s.AuthType == AuthenticationTypeNone ==> bufBytes(b)[9] == s.Length
 //@ ensures [C06.v1-auth] s.AuthType != AuthenticationTypeNone ==> bufBytes(b)[25] == s.Length && forall(qk, 0, 16, bufBytes(b)[9+qk] == s.AuthCode[qk])
 //@ ensures [C06.v1-payload~] forall(qk, 0, len(old(bufBytes(b))), bufBytes(b)[ite(s.AuthType == AuthenticationTypeNone, 10, 26)+qk] == old(bufBytes(b)[qk]))
+
+// ---- aes_128_cbc.go (13.29): confidentiality header (IV) and trailer (pad 01 02 .. n, n)
+//
+// The clauses at the CryptBlocks call pin what is encrypted: exactly the bytes
+// after the IV of the buffer as it is then (in place, so what is sent is the
+// ciphertext), consisting of the old payload followed by the pad bytes
+// 1..n and the pad length n, n = 15 - len(payload) mod 16.
+
+//@ func (*AES128CBC).SerializeTo
+//@ props C03 C06 C05
+//@ requires [aes.cipher] !isnil(a.cipher)
+//@ requires [buf] bufSmall(b)
+//@ invariant 0 [aes.padfill] 0 <= i && i <= padLength && forall(qk, 0, i, trailer[qk] == uint8(qk+1))
+//@ invariant 0 [aes.keep] forall(qk, 0, len(old(bufBytes(b))), bufBytes(b)[qk] == old(bufBytes(b)[qk]))
+//@ at NewCBCEncrypter assert [C03.aes-iv] window(arg[[]byte](1), bufBytes(b), 0, 16)
+//@ at CryptBlocks assert [C03.aes-inplace] window(arg[[]byte](1), bufBytes(b), 16, len(bufBytes(b))) && window(arg[[]byte](2), bufBytes(b), 16, len(bufBytes(b)))
+//@ at CryptBlocks assert [C03.aes-blocks] len(arg[[]byte](2)) == len(old(bufBytes(b))) + 16 - len(old(bufBytes(b)))%16
+//@ at PrependBytes assert [C03.aes-trailer] padLength == 15 - len(old(bufBytes(b)))%16 && len(bufBytes(b)) == len(old(bufBytes(b)))+padLength+1 &&
+//@    forall(qk, 0, padLength, bufBytes(b)[len(old(bufBytes(b)))+qk] == uint8(qk+1)) && bufBytes(b)[len(bufBytes(b))-1] == uint8(padLength)
+//@ at PrependBytes assert [C03.aes-payload] forall(qk, 0, len(old(bufBytes(b))), bufBytes(b)[qk] == old(bufBytes(b)[qk]))
+//@ at CryptBlocks assert [C03.aes-plain~] forall(qk, 0, len(old(bufBytes(b))), arg[[]byte](2)[qk] == old(bufBytes(b)[qk]))
+//@ ensures [C03.aes-ok] result == nil && bufValid(b)
+//@ ensures [C03.aes-len] len(bufBytes(b)) == old(len(bufBytes(b))) + 32 - old(len(bufBytes(b)))%16
+
+// ---- v2session.go (13.6, 13.28.4): RMCP+ session header and integrity trailer
+//
+// Header: auth type 06, payload type with the encrypted (bit 7) and
+// authenticated (bit 6) flags, [OEM IANA and payload ID], session ID, sequence
+// number and payload length, all little-endian. Trailer of an authenticated
+// packet: 0xff pad to a multiple of four, pad length, next header 07, then the
+// AuthCode over everything from the auth type to the next-header byte.
+
+//@ func executeHash
+//@ props C03 C04
+//@ option nilable:h
+//@ assigns hashstate(h)
+//@ ensures [C03.exec-nil] isnil(h) ==> isnil(result)
+//@ ensures [C03.exec-digest] !isnil(h) ==> hIsDigest(result, old(hAbsorb(hState(h), b))) && len(result) == hSizeOf(h) && hState(h) == hInit(h)
+
+//@ func (*V2Session).SerializeTo
+//@ props C03 C06 C05
+//@ split s.PayloadType == PayloadTypeOEM
+//@ split s.Authenticated
+//@ requires [buf] bufSmall(b) && len(s.Signature) <= 64
+//@ invariant 0 [v2.padfill] 0 <= i && i <= int(s.Pad)
+//@ at executeHash assert [C03.sig-hash] arg[hash.Hash](0) == s.IntegrityAlgorithm
+//@ at executeHash assert [C03.sig-range] aliases(arg[[]byte](1), bufBytes(b), 0, len(bufBytes(b)))
+//@ at executeHash assert [C03.sig-length] len(bufBytes(b)) == ite(s.PayloadType == PayloadTypeOEM, 18, 12) + len(old(bufBytes(b))) + int(s.Pad) + 2
+//@ at executeHash assert [C03.sig-aligned] opts.FixLengths ==> len(bufBytes(b)) % 4 == 0 && s.Pad <= 3
+//@ at executeHash assert [C03.sig-trailer~] bufBytes(b)[len(bufBytes(b))-1] == 0x07 && bufBytes(b)[len(bufBytes(b))-2] == s.Pad &&
+//@    forall(qk, 0, int(s.Pad), bufBytes(b)[len(bufBytes(b))-3-qk] == 0xff)
+//@ at executeHash assert [C03.sig-header~] bufBytes(b)[0] == 6 && bufBytes(b)[1] == uint8(s.PayloadType)|ite(s.Encrypted, uint8(0x80), uint8(0))|0x40 &&
+//@    le32(bufBytes(b), ite(s.PayloadType == PayloadTypeOEM, 8, 2)) == s.ID && le32(bufBytes(b), ite(s.PayloadType == PayloadTypeOEM, 12, 6)) == s.Sequence &&
+//@    le16(bufBytes(b), ite(s.PayloadType == PayloadTypeOEM, 16, 10)) == s.Length
+//@ ensures [C03.v2-ok] result == nil && bufValid(b)
+//@ ensures [C03.v2-length] opts.FixLengths ==> s.Length == uint16(len(old(bufBytes(b))))
+//@ ensures [C03.v2-len~] len(bufBytes(b)) == ite(s.PayloadType == PayloadTypeOEM, 18, 12) + len(old(bufBytes(b))) + ite(s.Authenticated, int(s.Pad) + 2 + len(s.Signature), 0)
+//@ ensures [C03.v2-header~] bufBytes(b)[0] == 6 && bufBytes(b)[1] == uint8(s.PayloadType)|ite(s.Encrypted, uint8(0x80), uint8(0))|ite(s.Authenticated, uint8(0x40), uint8(0)) &&
+//@    le32(bufBytes(b), ite(s.PayloadType == PayloadTypeOEM, 8, 2)) == s.ID && le32(bufBytes(b), ite(s.PayloadType == PayloadTypeOEM, 12, 6)) == s.Sequence &&
+//@    le16(bufBytes(b), ite(s.PayloadType == PayloadTypeOEM, 16, 10)) == s.Length
+//@ ensures [C03.v2-signed] s.Authenticated && opts.ComputeChecksums && !isnil(s.IntegrityAlgorithm) ==> len(s.Signature) == hSizeOf(s.IntegrityAlgorithm)
+//@ ensures [C03.v2-signature~] s.Authenticated ==> forall(qk, 0, len(s.Signature), bufBytes(b)[len(bufBytes(b))-len(s.Signature)+qk] == s.Signature[qk])
+
+// ---- command accessors: network function and command numbers of IPMI v2.0 appendix G, responder LUN
+//
+// The message layer takes its NetFn / command from Operation() and the
+// responder LUN from RemoteLUN() (C06's composed datagram, at-call clauses in
+// package bmc); these contracts pin each command's values to the specification.
+
+//@ func (*ChassisControlCmd).Operation
+//@ props C06 C11
+//@ assigns nothing
+//@ ensures [C06.op-chassiscontrolcmd] !isnil(result) && result.Function == 0x00 && result.Command == 0x02 && result.Body == 0 && result.Enterprise == 0
+
+//@ func (*ChassisControlCmd).RemoteLUN
+//@ props C06
+//@ assigns nothing
+//@ ensures [C06.lun-chassiscontrolcmd] result == LUNBMC
+
+//@ func (*ChassisControlCmd).Request
+//@ props C06
+//@ assigns nothing
+//@ ensures [C06.req-chassiscontrolcmd] !isnil(result)
+
+//@ func (*CloseSessionCmd).Operation
+//@ props C06 C11
+//@ assigns nothing
+//@ ensures [C06.op-closesessioncmd] !isnil(result) && result.Function == 0x06 && result.Command == 0x3c && result.Body == 0 && result.Enterprise == 0
+
+//@ func (*CloseSessionCmd).RemoteLUN
+//@ props C06
+//@ assigns nothing
+//@ ensures [C06.lun-closesessioncmd] result == LUNBMC
+
+//@ func (*CloseSessionCmd).Request
+//@ props C06
+//@ assigns nothing
+//@ ensures [C06.req-closesessioncmd] !isnil(result)
+
+//@ func (*GetChannelAuthenticationCapabilitiesCmd).Operation
+//@ props C06 C11
+//@ assigns nothing
+//@ ensures [C06.op-getchannelauthenticationcapabilitiescmd] !isnil(result) && result.Function == 0x06 && result.Command == 0x38 && result.Body == 0 && result.Enterprise == 0
+
+//@ func (*GetChannelAuthenticationCapabilitiesCmd).RemoteLUN
+//@ props C06
+//@ assigns nothing
+//@ ensures [C06.lun-getchannelauthenticationcapabilitiescmd] result == LUNBMC
+
+//@ func (*GetChannelAuthenticationCapabilitiesCmd).Request
+//@ props C06
+//@ assigns nothing
+//@ ensures [C06.req-getchannelauthenticationcapabilitiescmd] !isnil(result)
+
+//@ func (*GetChannelCipherSuitesCmd).Operation
+//@ props C06 C11
+//@ assigns nothing
+//@ ensures [C06.op-getchannelciphersuitescmd] !isnil(result) && result.Function == 0x06 && result.Command == 0x54 && result.Body == 0 && result.Enterprise == 0
+
+//@ func (*GetChannelCipherSuitesCmd).RemoteLUN
+//@ props C06
+//@ assigns nothing
+//@ ensures [C06.lun-getchannelciphersuitescmd] result == LUNBMC
+
+//@ func (*GetChannelCipherSuitesCmd).Request
+//@ props C06
+//@ assigns nothing
+//@ ensures [C06.req-getchannelciphersuitescmd] !isnil(result)
+
+//@ func (*GetChassisStatusCmd).Operation
+//@ props C06 C11
+//@ assigns nothing
+//@ ensures [C06.op-getchassisstatuscmd] !isnil(result) && result.Function == 0x00 && result.Command == 0x01 && result.Body == 0 && result.Enterprise == 0
+
+//@ func (*GetChassisStatusCmd).RemoteLUN
+//@ props C06
+//@ assigns nothing
+//@ ensures [C06.lun-getchassisstatuscmd] result == LUNBMC
+
+//@ func (*GetChassisStatusCmd).Request
+//@ props C06
+//@ assigns nothing
+//@ ensures [C06.req-getchassisstatuscmd] isnil(result)
+
+//@ func (*GetDeviceIDCmd).Operation
+//@ props C06 C11
+//@ assigns nothing
+//@ ensures [C06.op-getdeviceidcmd] !isnil(result) && result.Function == 0x06 && result.Command == 0x01 && result.Body == 0 && result.Enterprise == 0
+
+//@ func (*GetDeviceIDCmd).RemoteLUN
+//@ props C06
+//@ assigns nothing
+//@ ensures [C06.lun-getdeviceidcmd] result == LUNBMC
+
+//@ func (*GetDeviceIDCmd).Request
+//@ props C06
+//@ assigns nothing
+//@ ensures [C06.req-getdeviceidcmd] isnil(result)
+
+//@ func (*GetSDRCmd).Operation
+//@ props C06 C11
+//@ assigns nothing
+//@ ensures [C06.op-getsdrcmd] !isnil(result) && result.Function == 0x0a && result.Command == 0x23 && result.Body == 0 && result.Enterprise == 0
+
+//@ func (*GetSDRCmd).RemoteLUN
+//@ props C06
+//@ assigns nothing
+//@ ensures [C06.lun-getsdrcmd] result == LUNBMC
+
+//@ func (*GetSDRCmd).Request
+//@ props C06
+//@ assigns nothing
+//@ ensures [C06.req-getsdrcmd] !isnil(result)
+
+//@ func (*GetSDRRepositoryInfoCmd).Operation
+//@ props C06 C11
+//@ assigns nothing
+//@ ensures [C06.op-getsdrrepositoryinfocmd] !isnil(result) && result.Function == 0x0a && result.Command == 0x20 && result.Body == 0 && result.Enterprise == 0
+
+//@ func (*GetSDRRepositoryInfoCmd).RemoteLUN
+//@ props C06
+//@ assigns nothing
+//@ ensures [C06.lun-getsdrrepositoryinfocmd] result == LUNBMC
+
+//@ func (*GetSDRRepositoryInfoCmd).Request
+//@ props C06
+//@ assigns nothing
+//@ ensures [C06.req-getsdrrepositoryinfocmd] isnil(result)
+
+//@ func (*GetSensorReadingCmd).Operation
+//@ props C06 C11
+//@ assigns nothing
+//@ ensures [C06.op-getsensorreadingcmd] !isnil(result) && result.Function == 0x04 && result.Command == 0x2d && result.Body == 0 && result.Enterprise == 0
+
+//@ func (*GetSensorReadingCmd).RemoteLUN
+//@ props C06
+//@ assigns nothing
+//@ ensures [C06.lun-getsensorreadingcmd] result == c.OwnerLUN // 35.14: addressed to the LUN that owns the sensor
+
+//@ func (*GetSensorReadingCmd).Request
+//@ props C06
+//@ assigns nothing
+//@ ensures [C06.req-getsensorreadingcmd] !isnil(result)
+
+//@ func (*GetSessionInfoCmd).Operation
+//@ props C06 C11
+//@ assigns nothing
+//@ ensures [C06.op-getsessioninfocmd] !isnil(result) && result.Function == 0x06 && result.Command == 0x3d && result.Body == 0 && result.Enterprise == 0
+
+//@ func (*GetSessionInfoCmd).RemoteLUN
+//@ props C06
+//@ assigns nothing
+//@ ensures [C06.lun-getsessioninfocmd] result == LUNBMC
+
+//@ func (*GetSessionInfoCmd).Request
+//@ props C06
+//@ assigns nothing
+//@ ensures [C06.req-getsessioninfocmd] !isnil(result)
+
+//@ func (*GetSystemGUIDCmd).Operation
+//@ props C06 C11
+//@ assigns nothing
+//@ ensures [C06.op-getsystemguidcmd] !isnil(result) && result.Function == 0x06 && result.Command == 0x37 && result.Body == 0 && result.Enterprise == 0
+
+//@ func (*GetSystemGUIDCmd).RemoteLUN
+//@ props C06
+//@ assigns nothing
+//@ ensures [C06.lun-getsystemguidcmd] result == LUNBMC
+
+//@ func (*GetSystemGUIDCmd).Request
+//@ props C06
+//@ assigns nothing
+//@ ensures [C06.req-getsystemguidcmd] isnil(result)
+
+//@ func (*ReserveSDRRepositoryCmd).Operation
+//@ props C06 C11
+//@ assigns nothing
+//@ ensures [C06.op-reservesdrrepositorycmd] !isnil(result) && result.Function == 0x0a && result.Command == 0x22 && result.Body == 0 && result.Enterprise == 0
+
+//@ func (*ReserveSDRRepositoryCmd).RemoteLUN
+//@ props C06
+//@ assigns nothing
+//@ ensures [C06.lun-reservesdrrepositorycmd] result == LUNBMC
+
+//@ func (*ReserveSDRRepositoryCmd).Request
+//@ props C06
+//@ assigns nothing
+//@ ensures [C06.req-reservesdrrepositorycmd] isnil(result)
+
+//@ func (*SetSessionPrivilegeLevelCmd).Operation
+//@ props C06 C11
+//@ assigns nothing
+//@ ensures [C06.op-setsessionprivilegelevelcmd] !isnil(result) && result.Function == 0x06 && result.Command == 0x3b && result.Body == 0 && result.Enterprise == 0
+
+//@ func (*SetSessionPrivilegeLevelCmd).RemoteLUN
+//@ props C06
+//@ assigns nothing
+//@ ensures [C06.lun-setsessionprivilegelevelcmd] result == LUNBMC
+
+//@ func (*SetSessionPrivilegeLevelCmd).Request
+//@ props C06
+//@ assigns nothing
+//@ ensures [C06.req-setsessionprivilegelevelcmd] !isnil(result)
